@@ -3,7 +3,7 @@
 import ast
 
 from .. import assemblers as A
-from .. import geom, kernels as K, roles, rules, singular
+from .. import geom, grideq, kernels as K, roles, rules, singular
 from ..alg import I, V
 from ..core import AnalysisError
 from ..src import unparse
@@ -19,8 +19,8 @@ LEVEL_TEXT = (
     "is added (one expression gates both), and that point clouds use the element-major layout of the assemblers."
 )
 LEVEL_NOTE = "Not decided: rounding-level equality of the assembled numbers; the electric-field clause holds only up to quadrature error by the statement itself."
-EXPLANATION = "rules REG-MODES, FACTORY-*, ASM-REGULAR, POT-SUM, SPEC-AGREE, GATE, GEOM-AFFINE, LAUNCH-ROLES"
-ASSUMPTIONS = ["grids compare equal iff they are the same grid (Grid.__eq__)", "Numba arithmetic semantics"]
+EXPLANATION = "rules REG-MODES, FACTORY-*, ASM-REGULAR, POT-SUM, SPEC-AGREE, GATE, GRID-IDENTITY, GEOM-AFFINE, LAUNCH-ROLES"
+ASSUMPTIONS = ["Numba arithmetic semantics"]  # (that grids compare equal iff they are the same grid is decided: rule GRID-IDENTITY)
 
 NK = K.NK
 
@@ -100,4 +100,5 @@ def run(ctx):
     rules.launch_sites(ctx, which=("dense", "potential"))
     singular.check_scatter(ctx)
     gates(ctx)
+    grideq.grid_identity(ctx)
     geom.local2global_rule(ctx)
